@@ -98,9 +98,13 @@ class Gen:
                         kind = r.choice(["inject", "inject", "injkeys"])
                         dflt = r.choice(["", "", "dflt"])
                         data.append(datadef("inj_" + key, kind, a=key, dflt=dflt))
+            if self.elems:
+                data.append(datadef("cid", "id"))
             comps.append({"data": data, "tpl": None})
         for i in range(n, 0, -1):
             comps[i - 1]["tpl"] = self.nodes(lex=i, depth=self.depth, in_fill=None, top=True)
+            if self.elems:
+                comps[i - 1]["tpl"].insert(0, {"t": "var", "x": "cid"})
         ctx = [["x", S("px")], ["y", S("py")], ["xs", L(["i1", "i2"])], ["sn", L(["a", "b"])],
                ["on", S("1")], ["off", S("")], ["sa", S("a")], ["one", L(["o1"])]]
         page = self.nodes(lex=0, depth=self.depth, in_fill=None, top=True)
@@ -391,6 +395,8 @@ def make_component(prog, idx: int, tag: str, log: Optional[list] = None, extra: 
             k = e["k"]
             if k == "const":
                 d[e["x"]] = e["v"]
+            elif k == "id":
+                d[e["x"]] = self.id
             elif k == "clist":
                 d[e["x"]] = [e["v"] + "1", e["v"] + "2"]
             elif k == "kwarg":
